@@ -88,6 +88,11 @@ def write_targets():
             st = f.replace("{T}", t)
             for last in ("put Arr into Last\n", "put Num into Last\n"):
                 out.append({"src": pre + last + st + "\nsay Arr\nsay Arr at 0\nsay Num\nsay Str\nsay Last\nsay it\n", "stdin": "in\n", "meta": f"write target `{st}`"})
+    for depth in (7, 8, 9, 10, 17, 40):
+        chain = " at 1" * depth
+        for pre2 in ("", "put \"abc\" into Deep\n", "rock Deep with 1, 2\n", "put 5 into Deep\n"):
+            out.append({"src": pre + pre2 + f"let Deep{chain} be 5\nsay Deep{chain}\nsay Deep at 1\nsay Deep\n", "stdin": "", "meta": f"subscript chain of {depth}"})
+            out.append({"src": pre + pre2 + f"rock Deep{chain} with 1, 2\nroll Deep{chain} into Got\nsay Got\nbuild Deep{chain} up\nsay Deep{chain}\n", "stdin": "", "meta": f"subscript chain of {depth}"})
     return out
 
 
